@@ -369,7 +369,7 @@ func c16Session(t *testing.T, out *verifh.Out, r *verifh.Rand, steps int) {
 		s := defaultSettings()
 		rpm, pp, dd, mc = s.serverRPM, s.serverPerPeerRPM, s.serverDialDataRPM, s.maxConcurrentRequestsPerPeer
 	} else {
-		rpm, pp, dd, mc = 1+r.Intn(10), 1+r.Intn(5), r.Intn(4), 1+r.Intn(3)
+		rpm, pp, dd, mc = 2+r.Intn(12), 1+r.Intn(6), r.Intn(5), 1+r.Intn(3)
 	}
 	line := []int64{2, int64(rpm), int64(pp), int64(dd), int64(mc)}
 
@@ -468,14 +468,19 @@ func c16Session(t *testing.T, out *verifh.Out, r *verifh.Rand, steps int) {
 						switch dr.GetStatus() {
 						case pb.DialResponse_E_DIAL_REFUSED:
 							sawRefuse = true
+							out.Cover("session.events.response_dial_refused")
 						case pb.DialResponse_E_REQUEST_REJECTED:
 							sawReject = true
+							out.Cover("session.events.response_request_rejected")
+						case pb.DialResponse_OK:
+							out.Cover("session.events.response_ok")
 						}
 						w.closeStream(open, &openOrder, e.sid)
 					case msg.GetDialDataRequest() != nil:
 						q := msg.GetDialDataRequest()
 						evs = append(evs, 11, e.sid, int64(q.GetAddrIdx()), int64(q.GetNumBytes()))
 						nev++
+						out.Cover("session.events.dial_data_request")
 						sawAsk = true
 						if o := open[e.sid]; o != nil {
 							o.asked = true
@@ -490,6 +495,7 @@ func c16Session(t *testing.T, out *verifh.Out, r *verifh.Rand, steps int) {
 				evs = append(evs, 13, e.sid)
 				nev++
 				sawReset = true
+				out.Cover("session.events.reset")
 				w.closeStream(open, &openOrder, e.sid)
 			case 2:
 				pi, ok := w.byPeer[e.p]
@@ -503,6 +509,10 @@ func c16Session(t *testing.T, out *verifh.Out, r *verifh.Rand, steps int) {
 				evs = append(evs, 12, pi, aid)
 				nev++
 				sawDial = true
+				out.Cover("session.events.dial")
+				if len(stim) > 0 && stim[0] == 2 {
+					out.Cover("session.events.dial_after_dial_data")
+				}
 			}
 		}
 		line = append(line, stim...)
@@ -516,7 +526,7 @@ func c16Session(t *testing.T, out *verifh.Out, r *verifh.Rand, steps int) {
 	for step := 0; step < steps; step++ {
 		choice := r.Intn(10)
 		switch {
-		case len(openOrder) == 0 || (choice < 3 && len(openOrder) < 4):
+		case len(openOrder) == 0 || (choice < 2 && len(openOrder) < 4):
 			// clock: sometimes a real pause while nothing is open
 			if len(openOrder) == 0 && r.Chance(1, 3) {
 				var d time.Duration
@@ -609,7 +619,7 @@ func c16Session(t *testing.T, out *verifh.Out, r *verifh.Rand, steps int) {
 				}
 			}
 			out.Cover("session.requests")
-		case choice < 9:
+		case choice < 9 || !r.Chance(1, 4):
 			// next client action on an open stream
 			sid := openOrder[r.Intn(len(openOrder))]
 			o := open[sid]
@@ -736,7 +746,7 @@ func c16DataPlan(out *verifh.Out, r *verifh.Rand, n int) []c16Msg {
 		}
 		sent += d
 	}
-	switch r.Intn(10) {
+	switch r.Intn(14) {
 	case 0: // stops early
 		msgs = msgs[:r.Intn(len(msgs))]
 		out.Cover("session.plan.short")
@@ -769,7 +779,7 @@ func c16Sessions(t *testing.T, out *verifh.Out, r *verifh.Rand) {
 	n := c16Scale(250, 6000)
 	for i := 0; i < n; i++ {
 		rr := r.Fork()
-		steps := 10 + rr.Intn(50)
+		steps := 20 + rr.Intn(70)
 		synctest.Test(t, func(t *testing.T) { c16Session(t, out, rr, steps) })
 	}
 }
